@@ -59,7 +59,7 @@ predicate('RowDtypeHolds', ['tb'], 'implies(len(tb._blocks) > 0, not is_none(tb.
 _OLDN = 'old(len(self._index))'
 _OLDB = 'old(len(self._blocks))'
 contract(TB, 'TypeBlocks.append',
-    props=['C09', 'C03', 'C01'],
+    props=['C09', 'C03', 'C01', 'C07'],
     params=dict(self='TypeBlocks', block='arr'), order=['self', 'block'], result='none',
     requires=['Dir(self)', 'Frozen(self)', 'block.ndim == 1 or block.ndim == 2',
               'implies(len(self._blocks) == 0, is_none(self._row_dtype))', 'RowDtypeHolds(self)'],
@@ -115,7 +115,7 @@ contract(UTIL, 'shape_filter', key='shape_filter', assumed=False,
 
 _ROWS = 'cond(is_none(row_count), -1, row_count)'
 contract(TB, 'TypeBlocks.from_blocks',
-    props=['C01', 'C03', 'C09'],
+    props=['C01', 'C03', 'C09', 'C07'],
     params=dict(raw_blocks='list[arr]', shape_reference='opt[tuple[int,int]]'), order=['raw_blocks', 'shape_reference'],
     variants=[dict(raw_blocks='list[arr]'), dict(raw_blocks='arr')],
     result='TypeBlocks',
